@@ -428,6 +428,16 @@ func c17FillConf(c *Ctx) {
 		}
 	})
 	okMap := tsk != nil && DerivesOnly(call.Call.Args[0], false, IsResultOf(tsk, 0))
+	// or: a copy of that map made in parseConf (see the copy rule below)
+	var copyMap *ssa.MakeMap
+	if tsk != nil && !okMap {
+		for _, r := range Roots(call.Call.Args[0], false) {
+			if mm, ok := r.(*ssa.MakeMap); ok && mm.Parent() == pc {
+				copyMap = mm
+			}
+		}
+		okMap = copyMap != nil && DerivesOnly(call.Call.Args[0], false, func(v ssa.Value) bool { return v == ssa.Value(copyMap) })
+	}
 	c.Check(iv.Is(1, 1) && okArgs && okMap, "O17.3", fk(fill)+":strict-decode-and-validate", call.Pos(),
 		fmt.Sprintf("DecodeAndValidate(confData, conf) per fillConf call = %v (want [1,1] - also for a config struct without fields: that is how unknown keys of config-less plugins are rejected); conf is the closure's argument: %v; the map is parseConf's confData: %v", iv, okArgs, okMap))
 	// error returned
@@ -481,7 +491,83 @@ func c17FillConf(c *Ctx) {
 			okDel = false
 		}
 	})
-	c.Check(nDel == 1 && okDel, "O17.3", fk(pc)+":only-the-type-key-is-removed", pc.Pos(), fmt.Sprintf("%d delete(confData, key) call(s), each under strings.ToLower(key) == \"type\": %v", nDel, okDel))
+	if copyMap == nil {
+		c.Check(nDel == 1 && okDel, "O17.3", fk(pc)+":only-the-type-key-is-removed", pc.Pos(), fmt.Sprintf("%d delete(confData, key) call(s), each under strings.ToLower(key) == \"type\": %v", nDel, okDel))
+	} else {
+		c17CopyWithoutType(c, pc, tsk, copyMap, nDel)
+	}
+	c17FillConfRegistry(c)
+}
+
+// c17CopyWithoutType: the copying form of "only the type key is removed".
+func c17CopyWithoutType(c *Ctx, pc *ssa.Function, tsk *ssa.Call, copyMap *ssa.MakeMap, nDel int) {
+	// the copying form: the decoded map is filled in a range over the section, with the ranged key and value, on
+	// exactly the iterations whose key is not the type key
+	isTypeTest := func(v ssa.Value) bool {
+		b, ok := v.(*ssa.BinOp)
+		if !ok || b.Op != token.EQL {
+			return false
+		}
+		for _, pr := range [][2]ssa.Value{{b.X, b.Y}, {b.Y, b.X}} {
+			if s, ok := ConstString(pr[0]); ok && s == "type" {
+				if cl, _ := CallOfValue(pr[1]); cl != nil && MatchCC(&cl.Call, Spec{"strings", "", "ToLower"}) {
+					return true
+				}
+			}
+		}
+		return false
+	}
+	var ups []*ssa.MapUpdate
+	EachInstr(pc, func(in ssa.Instruction) {
+		if mu, ok := in.(*ssa.MapUpdate); ok && DerivesOnly(mu.Map, false, func(v ssa.Value) bool { return v == ssa.Value(copyMap) }) {
+			ups = append(ups, mu)
+		}
+	})
+	okCopy := len(ups) == 1 && nDel == 0
+	detail := fmt.Sprintf("%d update(s) of the copy, %d delete(s)", len(ups), nDel)
+	if okCopy {
+		mu := ups[0]
+		// key and value come from the Next of a range over the section
+		var next *ssa.Next
+		fromNext := func(v ssa.Value, idx int) bool {
+			ex, ok := Strip(v).(*ssa.Extract)
+			if !ok || ex.Index != idx {
+				return false
+			}
+			n, ok := ex.Tuple.(*ssa.Next)
+			if !ok {
+				return false
+			}
+			rg, ok := n.Iter.(*ssa.Range)
+			if !ok || !DerivesOnly(rg.X, false, IsResultOf(tsk, 0)) {
+				return false
+			}
+			next = n
+			return true
+		}
+		okKV := fromNext(mu.Key, 1) && fromNext(mu.Value, 2)
+		okCount := false
+		if okKV && next != nil {
+			w := func(in ssa.Instruction) (int, int) {
+				if in == ssa.Instruction(mu) {
+					return 1, 1
+				}
+				return 0, 0
+			}
+			head := next.Block()
+			kept := PathQuery{Fn: pc, Start: next, StopBlock: head, Weight: w, Edge: RestrictBool(isTypeTest, false), Exit: func(*ssa.BasicBlock) bool { return false }}.Count()
+			dropped := PathQuery{Fn: pc, Start: next, StopBlock: head, Weight: w, Edge: RestrictBool(isTypeTest, true), Exit: func(*ssa.BasicBlock) bool { return false }}.Count()
+			okCount = kept.Is(1, 1) && (dropped.NoPath || dropped.Is(0, 0))
+			detail += fmt.Sprintf("; copies per iteration with another key = %v (want [1,1]), with the type key = %v (want [0,0])", kept, dropped)
+		}
+		okCopy = okKV && okCount
+		detail += fmt.Sprintf("; key and value are the ranged ones: %v", okKV)
+	}
+	c.Check(okCopy, "O17.3", fk(pc)+":only-the-type-key-is-removed", pc.Pos(), "the map given to DecodeAndValidate is a copy of the section without the type key: "+detail)
+}
+
+func c17FillConfRegistry(c *Ctx) {
+	P := c.P
 	// registry side
 	get := P.Func("core/plugin", "defaultConfigContainer", "Get")
 	if get == nil || len(get.Params) != 2 {
